@@ -5,6 +5,25 @@ from .common import Mode1, judge
 INSTS = ["I1", "I2", "I3"]
 
 
+def failed_ack_traces():
+    """the datagram with the first acknowledgement fails to leave (the transport raises): later Subscribes are answered all the same"""
+    from .. import annenv, monpass
+    out = []
+    tc = anngen.TIMINGS["B0"]
+    sub = {"ty": "sub", "svc": "s1", "eg": 1, "ctr": 0, "eps": ["e1"], "opts": [], "acc": True, "ttl": 3}
+    for k in (1, 2):
+        sched = [{"t": 0, "j": 0, "op": "ann_start"}]
+        for n, t in enumerate((2, 4, 6, 8)):
+            sched.append({"t": t, "j": 0, "op": "rx", "src": "a1", "mc": False, "sid": n + 1, "rb": True, "uc": True, "es": [dict(sub, eg=1 + n % 2)]})
+        rand = [0] * 4
+        ev, _ = annenv.run_schedule(sched, tc, ["I1"], ann0=["I1"], rand=list(rand), t_extra=14, send_failures=[k])
+        cfg = annenv.mon_cfg(tc, ["I1"], ["I1"])
+        cfg["dsts"] = ["mc", "a1", "a2", "a3", "a4", "a5"]
+        out.append({"cfg": cfg, "ev": monpass.add_adv(ev), "sched": sched, "variant": "B0", "ann0": ["I1"], "rand": rand, "insts": ["I1"],
+                    "t_extra": 14, "fails": [k], "diag": {"variant": "B0", "family": "transmission %d fails" % k}})
+    return out
+
+
 def check(ctx):
     m1 = Mode1(ctx, "MC_Ann")
     m1.holds("collect 0", "C11_quick.cfg")
@@ -14,7 +33,7 @@ def check(ctx):
     m1.caught("SwAck", "C11_quick.cfg")
     traces = anngen.run(ctx.seed, ctx.pick(360, 6000), ctx.pick(8, 12), INSTS, list("ABDF"), tag="c11",
                         with_sub=True, with_find=False, stop_twice=False)
-    bad, ms = judge(ctx, "Mon_C11", traces + anngen.sub_lifecycle_family(), "subscribe histories", anngen.payload)
+    bad, ms = judge(ctx, "Mon_C11", traces + anngen.sub_lifecycle_family() + failed_ack_traces(), "subscribe histories", anngen.payload)
     sim = anngen.spec_to_code_ann(ctx, "Mon_C11", "C06_B", "C11_Inputs", "B0", ["I1"], ["I1"], ctx.pick(20, 300))
     acc, total = anngen.conform_by_variant(ctx, traces, ctx.pick(100, 1000))
     cov = dict(states=m1.states, transitions=m1.trans, traces_validated_against_impl=acc, monitor_traces=len(traces),
